@@ -28,7 +28,7 @@ ASSUMPTIONS = [
 ]
 BUDGET = {"quick": 80, "thorough": 800}
 ROUNDS = {"thorough": 8}
-FLOORS = {"posterior_identities": {"quick": 3000, "thorough": 30000}, "off_posterior_recomputations": {"quick": 800, "thorough": 8000}, "pairing_checks": {"quick": 3000, "thorough": 30000},
+FLOORS = {"posterior_identities": {"quick": 3000, "thorough": 30000}, "off_posterior_recomputations": {"quick": 800, "thorough": 8000}, "api_cases": {"quick": 30, "thorough": 300}, "pairing_checks": {"quick": 3000, "thorough": 30000},
           "families": 7, "objectives": 6, "driver_iterations": 20}
 
 FAMILIES = ["gamma-exponential", "gamma-poisson", "normal-normal", "beta-binomial", "mvn", "lognormal-exp", "normal-affine"]
@@ -51,6 +51,12 @@ def cases(tier, seed):
                     "off": bool(rng.random() < 0.3), "seed": int(rng.integers(2**31)), "alpha": float(rng.choice([0.0, 0.5, 2.0])), "n": float(rng.choice([2.0, 3.0]))})
         if fam == "mvn" and rng.random() < 0.5:
             out[-1]["blocks"] = True
+        if fam in ("gamma-exponential", "gamma-poisson", "normal-normal") and i % 19 == 5:
+            out[-1]["big_data"] = True
+        if len(shape) == 1 and i % 5 == 2:
+            out[-1]["override_samples"] = True  # later requests pass samples=... with another count, as the convergence checks do
+    for i in range(40 if tier == "quick" else 400):
+        out.append({"api": True, "objective": ["ELBO", "VR", "CUBO", "KLpq"][i % 4], "seed": int(rng.integers(2**31))})
     for i in range(8 if tier == "quick" else 60):
         out.append({"family": FAMILIES[i % len(FAMILIES)], "objective": "driver", "shape": [int(rng.choice([1, 4, 16]))], "qform": "joint", "off": False, "seed": int(rng.integers(2**31))})
     return out
@@ -72,6 +78,8 @@ def build(case):
     rng = np.random.default_rng(case["seed"])
     fam = case["family"]
     n = int(rng.integers(1, 51))
+    if case.get("big_data"):
+        n = int(rng.integers(600, 1001))  # log p(data) far below log(smallest double): weights must be normalised in log space
     off = case["off"]
     jitter = (lambda v: v * float(np.exp(rng.normal(0, 0.3)))) if off else (lambda v: v)
     if fam == "gamma-exponential":
@@ -177,6 +185,48 @@ def build(case):
     raise ValueError(fam)
 
 
+def run_api_case(case):
+    """The gamma-exponential model through an exp transform, built through the Python API with every id left at None (what a
+    script does), q a normal on the unconstrained coordinate: every objective must equal its definition evaluated on the very
+    samples it drew, with log p = log prior(z) + sum log lik + log |dz/du| computed by scipy."""
+    import torch
+    from torchtree import Parameter
+    from torchtree.core.parameter import TransformedParameter
+    from torchtree.distributions.distributions import Distribution
+    from torchtree.distributions.joint_distribution import JointDistributionModel
+    from torchtree.variational.chi import CUBO
+    from torchtree.variational.kl import ELBO, KLpq
+    from torchtree.variational.renyi import VR
+
+    V = []
+    C = {"posterior_identities": 0, "off_posterior_recomputations": 0, "pairing_checks": 0, "declined_shapes": 0, "api_cases": 1, "families": ["api:gamma-exponential-exp"], "objectives": [case["objective"]]}
+    rng = np.random.default_rng(case["seed"])
+    T = lambda v: torch.tensor(v, dtype=torch.float64)
+    a, b = float(gm.loguniform(rng, 0.5, 4)), float(gm.loguniform(rng, 0.5, 4))
+    x = rng.exponential(1.0, int(rng.integers(2, 12)))
+    u = Parameter(None, T([0.1]))
+    z = TransformedParameter(None, u, torch.distributions.ExpTransform())
+    prior = Distribution(None, torch.distributions.Gamma, z, {"concentration": Parameter(None, T([a])), "rate": Parameter(None, T([b]))})
+    lik = Distribution(None, torch.distributions.Exponential, Parameter(None, T(x.tolist())), {"rate": z})
+    joint = JointDistributionModel(None, [prior, lik, z])
+    m, sd = float(rng.normal(0, 0.3)), float(gm.loguniform(rng, 0.2, 0.8))
+    q = JointDistributionModel(None, [Distribution(None, torch.distributions.Normal, u, {"loc": Parameter(None, T([m])), "scale": Parameter(None, T([sd]))})])
+    S = int(rng.choice([2, 3, 7]))
+    o = case["objective"]
+    obj = {"ELBO": lambda: ELBO(None, q, joint, torch.Size([S])), "VR": lambda: VR(None, q, joint, torch.Size([S]), 0.5),
+           "CUBO": lambda: CUBO(None, q, joint, torch.Size([S]), torch.tensor(2.0)), "KLpq": lambda: KLpq(None, q, joint, torch.Size([S]))}[o]()
+    val = float(tt.as_np(obj(), "C14:not-a-tensor:" + o).reshape(-1)[0])
+    us = u.tensor.detach().numpy().reshape(S)
+    zs = np.exp(us)
+    lp = stats.gamma.logpdf(zs, a, scale=1 / b) + np.array([stats.expon.logpdf(x, scale=1 / zz).sum() for zz in zs]) + us
+    lq = stats.norm.logpdf(us, m, sd)
+    expect = reference_value({"objective": o, "alpha": 0.5, "n": 2.0, "shape": [S]}, lp.reshape(S), lq.reshape(S))
+    C["off_posterior_recomputations"] += 1
+    if not any(abs(val - e) <= 1e-9 * max(1.0, abs(e)) for e in expect):
+        V.append(tt.viol("C14:api-built-model:%s" % o, "%s on a model built through the Python API (ids None, Jacobian of the exp transform listed in the joint) gives %.12g, its definition on the drawn samples gives %s" % (o, val, expect), case=case))
+    return {"violations": V, "counters": C, "fingerprint": "api|%s|%d" % (o, case["seed"]), "sample": None}
+
+
 def objective_json(case):
     o = case["objective"]
     base = {"id": "obj", "variational": "var", "joint": "joint", "samples": case["shape"] if len(case["shape"]) > 1 else case["shape"][0]}
@@ -223,6 +273,8 @@ def reference_value(case, lp, lq):
 def run_case(case):
     import torch
 
+    if case.get("api"):
+        return run_api_case(case)
     V = []
     fam, o = case["family"], case["objective"]
     C = {"posterior_identities": 0, "off_posterior_recomputations": 0, "pairing_checks": 0, "declined_shapes": 0, "driver_iterations": 0, "families": [fam], "objectives": [o] if o != "driver" else []}
@@ -266,12 +318,17 @@ def run_case(case):
     if o == "driver":
         return run_driver(case, dic, b, rec, V, C, detail, logZ)
     prev_sample = None
+    shape0 = shape
     for draw in range(5):
         rec["p"].clear(), rec["q"].clear()
         rec["draws"] = 0
         dic[b["qparam"]].fire_parameter_changed()  # what the drivers do before asking for the objective
+        override = bool(case.get("override_samples")) and draw >= 2 and o not in ("driver",)
+        shape = tuple(shape0[:-1]) + (shape0[-1] + 2 + draw,) if override else shape0
+        if override:
+            C["requests_with_overridden_sample_count"] = C.get("requests_with_overridden_sample_count", 0) + 1
         try:
-            val = obj()
+            val = obj(samples=torch.Size(shape)) if override else obj()
         except Exception as e:
             from ..worker import _blame
             import traceback
